@@ -234,7 +234,7 @@ PROPS = {
         technique="Lean 4 proof + exhaustive differential correspondence",
     ),
     "C20": dict(
-        modules=["Copia.Props.C20", "Copia.Props.C20b", "Copia.Props.C20c"], namespaces=["Copia.C20"], runner="rust", needs_cli=True,
+        modules=["Copia.Props.C20", "Copia.Props.C20b", "Copia.Props.C20c", "Copia.Props.C20d"], namespaces=["Copia.C20"], runner="rust", needs_cli=True,
         assumptions=COMMON_ASSUME + [
             "bincode 1.3 legacy format (fixint LE, u64 lengths, u32 variant tags, trailing bytes allowed, slice reader) is modelled for copia's types; serde/bincode internals are not verified",
             "UTF-8 validity is a parameter of the model (instantiated with ByteArray.validateUTF8 in the driver)",
